@@ -2602,6 +2602,140 @@ run_http(void *arg)
 }
 
 // =====================================================================================
+// (c2) large request heads: the same head, larger than the connection's read buffer but made of
+// ordinary lines, under segmentations that fill the buffer differently
+// =====================================================================================
+static struct {
+	int      calls, nh;
+	unsigned sum;
+} HB;
+
+static void
+hb_cb(nng_http *conn, void *arg, nng_aio *aio)
+{
+	(void) arg;
+	const char *k, *v;
+	void       *it = NULL;
+	HB.calls++;
+	HB.nh  = 0;
+	HB.sum = 0;
+	while (nng_http_next_header(conn, &k, &v, &it)) {
+		HB.nh++;
+		for (const char *q = k; *q; q++)
+			HB.sum = HB.sum * 31 + (unsigned char) *q;
+		for (const char *q = v; *q; q++)
+			HB.sum = HB.sum * 33 + (unsigned char) *q;
+	}
+	nng_http_set_status(conn, NNG_HTTP_STATUS_OK, NULL);
+	int rv = nng_http_copy_body(conn, "ok", 2);
+	nng_aio_finish(aio, rv);
+}
+
+static void
+run_httpbig(void *arg)
+{
+	(void) arg;
+	static const struct {
+		int nh, ll;
+	} SH[] = { { 40, 290 }, { 27, 300 }, { 28, 291 }, { 30, 272 }, { 60, 140 },
+		{ 16, 1000 } };
+	g_sfx           = "";
+	vs_tcp_grace_us = 1500;
+	vh_init(0);
+	nng_url          *u;
+	nng_http_server  *srv;
+	nng_http_handler *h;
+	int               port = 0;
+	VH_OK(nng_url_parse(&u, "http://127.0.0.1:0"));
+	VH_OK(nng_http_server_hold(&srv, u));
+	VH_OK(nng_http_handler_alloc(&h, "/big", hb_cb));
+	VH_OK(nng_http_server_add_handler(srv, h));
+	VH_OK(nng_http_server_start(srv));
+	VH_OK(nng_http_server_get_port(srv, &port));
+	vs_settle();
+	int   shape = vs_choose(VK_ENV, 6);
+	int   nh = SH[shape].nh, ll = SH[shape].ll;
+	char *req = malloc(70000);
+	size_t rn = (size_t) sprintf(req, "GET /big HTTP/1.1\r\nHost: 127.0.0.1\r\n");
+	size_t lines[80];
+	int    nl = 0;
+	lines[nl++] = rn;
+	for (int i = 0; i < nh; i++) {
+		int k = sprintf(req + rn, "X-H%02d: ", i);
+		for (int j = k; j < ll - 2; j++)
+			req[rn + (size_t) j] = (char) ('a' + (i * 7 + j) % 26);
+		rn += (size_t) ll - 2;
+		req[rn++] = '\r';
+		req[rn++] = '\n';
+		lines[nl++] = rn;
+	}
+	req[rn++] = '\r';
+	req[rn++] = '\n';
+	// segmentations: per line (reference), one write, 8160 then the rest, 8159, 8161, chunks
+	static const int CH[] = { -1, 0, 8160, 8159, 8161, -4000, -1000, -97, -8160 };
+	int      ref_st = 0, ref_nh = 0, ref_calls = 0;
+	unsigned ref_sum = 0;
+	for (int sg = 0; sg < 9; sg++) {
+		rconn  c;
+		char   why[200] = "";
+		size_t cuts[800];
+		int    nc = 0;
+		if (sg == 0) {
+			for (int i = 0; i < nl; i++)
+				cuts[nc++] = lines[i];
+		} else if (CH[sg] > 0) {
+			cuts[nc++] = (size_t) CH[sg];
+		} else if (CH[sg] < 0) {
+			for (size_t at = (size_t) -CH[sg]; at < rn && nc < 800; at += (size_t) -CH[sg])
+				cuts[nc++] = at;
+		}
+		memset(&HB, 0, sizeof(HB));
+		rc_open(&c, port);
+		vp_write_cut(c.fd, (uint8_t *) req, rn, cuts, nc);
+		vs_settle();
+		vs_case();
+		vs_nontrivial();
+		size_t bl = 0;
+		int    st = http_read_response(&c, sg, 200, 0, &bl, why, sizeof(why));
+		if (st == -2)
+			CFAIL("C16:http:emitted-malformed",
+			    "%d header lines of %d bytes, segmentation %d: malformed answer (%s)",
+			    nh, ll, CH[sg], why);
+		if (sg == 0) {
+			ref_st    = st;
+			ref_nh    = HB.nh;
+			ref_sum   = HB.sum;
+			ref_calls = HB.calls;
+			if (st != 200 || HB.calls != 1 || HB.nh < nh)
+				CFAIL("C16:http:valid-request",
+				    "request head of %zu bytes (%d header lines of %d bytes) sent one "
+				    "line per segment: status %d, handler ran %d time(s) with %d headers",
+				    rn, nh, ll, st, HB.calls, HB.nh);
+		} else if (st != ref_st || HB.calls != ref_calls || HB.nh != ref_nh ||
+		    HB.sum != ref_sum)
+			CFAIL("C16:http:segmentation",
+			    "request head of %zu bytes (%d header lines of %d bytes): sent line by "
+			    "line -> status %d, handler x%d, %d headers; sent %s%d -> status %d, "
+			    "handler x%d, %d headers%s",
+			    rn, nh, ll, ref_st, ref_calls, ref_nh,
+			    CH[sg] == 0      ? "in one write "
+			        : CH[sg] > 0 ? "cut once at "
+			                     : "in chunks of ",
+			    CH[sg] < 0 ? -CH[sg] : CH[sg], st, HB.calls, HB.nh,
+			    HB.sum != ref_sum ? " (different header content)" : "");
+	done:
+		rc_close(&c);
+	}
+	free(req);
+	vs_outcome("httpbig shape %d fails %d", shape, g_nfail);
+	nng_http_server_stop(srv);
+	nng_http_server_release(srv);
+	nng_url_free(u);
+	batch_finish();
+	vh_fini();
+}
+
+// =====================================================================================
 // (d) nng_http_client / nng_http_transact  <->  raw HTTP server implemented here
 // =====================================================================================
 typedef struct ccase {
@@ -3489,6 +3623,7 @@ main(int argc, char **argv)
 	explore("http-segmentation", run_http, (void *) 0, 20);
 	explore("http-request-line", run_http, (void *) 1, 15);
 	explore("http-pipelined", run_http, (void *) 2, 15);
+	explore("http-large-head", run_httpbig, NULL, 15);
 	// ---- (d) ----
 	build_httpc_cases(T);
 	explore("httpc-transact", run_httpc, NULL, 20);
